@@ -9,6 +9,7 @@ reopening a trie from its root hash (`NewTrie(NewHashNode(root), …)`).
                             node.go:77-107, model `decodeTop`; stored Hash/Empty nodes are rejected)
   lenc / lhash / lrootHash  base.go:66-92, hash.go: a HashNode is its own hash
   lget                      trie.go:77-143  Get = getWithPath(strict) + `t.root = r`
+  lgetProof                 proof.go:14-62  GetProof
   lput                      trie.go:145-280 putIntoNode incl. putIntoHash
   ldel, lstripDel           trie.go:282-396 deleteFromNode incl. the resolution of the remaining
                             sibling when a branch is left with one child (trie.go:324-329)
@@ -145,6 +146,29 @@ def lget (S : LStore) : Nat → LNode → Path → Option (LNode × Val)
     | some r => (lget S f n r).map fun x => (.ext k x.1, x.2)
   | f + 1, .branch cs lv, [] => (lget S f lv []).map fun x => (.branch cs x.1, x.2)
   | f + 1, .branch cs lv, i :: p => (lget S f (cs i) p).map fun x => (.branch (lupd cs i x.1) lv, x.2)
+
+/-! ### GetProof -/
+
+/-- proof.go:14-62 `GetProof` on the in-memory representation: the serialised nodes on the path (a
+HashNode is loaded first) and the root with those nodes in place (`t.root = r`); `none` = error
+(ErrNotFound or a node that cannot be loaded), nothing is replaced then. -/
+def lgetProof (H : Bytes → Bytes) (S : LStore) : Nat → LNode → Path → Option (LNode × List Bytes)
+  | 0, _, _ => none
+  | _ + 1, .empty, _ => none
+  | _ + 1, .leaf v, [] => some (.leaf v, [encLeaf v])
+  | _ + 1, .leaf _, _ :: _ => none
+  | f + 1, .hash h, p =>
+    match resolve S h with
+    | none => none
+    | some l => lgetProof H S f l p
+  | f + 1, .ext k n, p =>
+    match stripPre k p with
+    | none => none
+    | some r => (lgetProof H S f n r).map fun x => (.ext k x.1, lenc H (.ext k n) :: x.2)
+  | f + 1, .branch cs lv, [] =>
+    (lgetProof H S f lv []).map fun x => (.branch cs x.1, lenc H (.branch cs lv) :: x.2)
+  | f + 1, .branch cs lv, i :: p =>
+    (lgetProof H S f (cs i) p).map fun x => (.branch (lupd cs i x.1) lv, lenc H (.branch cs lv) :: x.2)
 
 /-! ### Put -/
 
